@@ -1,0 +1,16 @@
+//go:build verif
+
+package spine
+
+import "sync/atomic"
+
+// VerifYield is only present with the build tag "verif". A verification harness
+// can install a function here to take control of the calling goroutine at the
+// named yield points (used to enumerate interleavings deterministically).
+var VerifYield atomic.Pointer[func(point string)]
+
+func verifYield(point string) {
+	if f := VerifYield.Load(); f != nil {
+		(*f)(point)
+	}
+}
